@@ -323,15 +323,19 @@ func (p *P) Run(src *tape.Source, trace bool) *core.Result {
 	if cold {
 		// first use of everything happens concurrently; the reference comes afterwards
 		concurrent()
-		ops.ResetGlobals()
-		sequential()
+		if !s.Deadlock { // parked tasks hold real locks: nothing else can run in this process
+			ops.ResetGlobals()
+			sequential()
+		}
 	} else {
 		sequential()
 		concurrent()
 	}
 	pool.Uninstall()
-	metrics.Disable()
-	monitor.Disable()
+	if !s.Deadlock {
+		metrics.Disable()
+		monitor.Disable()
+	}
 
 	r.Steps = int64(s.Steps())
 	r.Extra["schedules"] = s.SchedHash
